@@ -102,6 +102,7 @@ impl<'l, F: AsFd> Async<'l, F> {
             );
             return Err(err);
         }
+        dispatcher.borrow_mut().is_registered = true;
 
         // Straightforward casting would require us to add the bound `Data: 'l` but we don't actually need it
         // as this module never accesses the dispatch data, so we use transmute to erase it
@@ -246,11 +247,17 @@ impl<Data> IoLoopInner for LoopInner<'_, Data> {
         // Nothing else ever removes the fd from the poller: without this it would stay
         // registered after `into_inner()` (or a drop that keeps the fd open) and could not be
         // adapted or inserted again.
-        let fd = dispatcher.borrow().fd;
-        let _ = self
-            .poll
-            .borrow_mut()
-            .unregister(unsafe { BorrowedFd::borrow_raw(fd) });
+        // (Not when registering it failed: the fd may then be registered by somebody else.)
+        let (fd, is_registered) = {
+            let disp = dispatcher.borrow();
+            (disp.fd, disp.is_registered)
+        };
+        if is_registered {
+            let _ = self
+                .poll
+                .borrow_mut()
+                .unregister(unsafe { BorrowedFd::borrow_raw(fd) });
+        }
     }
 }
 
